@@ -241,7 +241,11 @@ def run_check(chk, argv=None):
 def write_evidence(chk, tier, seed, st, n_validated, wall, violations, known_hits, harness_errors, missing,
                    per_case, replayed):
     pid = chk.pid
-    samples = list(st.samples[:4])
+    samples, seen_names = [], set()
+    for x in st.samples:
+        if x["obligation"] not in seen_names and len(samples) < 8:
+            seen_names.add(x["obligation"])
+            samples.append(x)
     for cex in violations[:3]:
         samples.append({"counterexample": {k: cex[k] for k in ("obligation", "inputs", "observed") if k in cex}})
     for fid, cex in list(known_hits.items())[:3]:
